@@ -164,8 +164,8 @@ def independent_solve(name, t, info, a, sizes, q, weights=None):
 
 
 # ----------------------------------------------------------------------------- strategies
-def _nsched_nout(kind, d, m):
-    return c10._nsched_nout(kind, d, m)
+def _nsched_nout(kind, d, m, case=None):
+    return c10._nsched_nout(kind, d, m, case)
 
 
 @st.composite
@@ -206,7 +206,7 @@ def opt_case(draw, tier, cvx=False):
     if cvx:
         c["flag"] = True  # documented requirement of the CVXPY-backed estimator
     d = gen.dim_of(c["shape"])
-    ns, no = _nsched_nout(kind, d, c["true"].get("m"))
+    ns, no = _nsched_nout(kind, d, c["true"].get("m"), c)
     c["datadesc"] = draw(data_desc(ns, no))
     c["order"] = "eq_ineq"
     c["algo"] = "backtracking"
